@@ -23,10 +23,12 @@ async def run_case(follow, mx, url, table):
     from nauyaca.client.session import GeminiClient
     from nauyaca.protocol.response import GeminiResponse
     from nauyaca.utils.url import parse_url
-    if _client is None:     # constructing a client builds an SSL context (slow): reuse one
-        _client = GeminiClient(trust_on_first_use=False)
-    c = _client
-    c.max_redirects = mx
+    # constructing a client builds an SSL context (slow): one client per max_redirects value, built through the
+    # constructor (the value must survive __init__: 0 is a legitimate bound)
+    if _client is None: _client = {}
+    if mx not in _client:
+        _client[mx] = GeminiClient(trust_on_first_use=False, max_redirects=mx)
+    c = _client[mx]
     log = []
     async def single(u):
         log.append(u)
@@ -38,7 +40,15 @@ async def run_case(follow, mx, url, table):
     c._get_single = single
     try:
         # get() validates the URL first; the model's `get` starts after validation, so do that here
-        r = await (c._get_with_redirects(url, max_redirects=mx) if follow else c._get_single(url))
+        from nauyaca.utils.url import validate_url
+        try:
+            validate_url(url); validate_url(parse_url(url).normalized); public = True
+        except ValueError:
+            public = False
+        if public:
+            r = await c.get(url, follow_redirects=follow)          # the public entry point, bound taken from the constructor
+        else:
+            r = await (c._get_with_redirects(url, max_redirects=mx) if follow else c._get_single(url))
         out = ["final", r.status, r.meta, r.body or ""]
     except Exception as e:
         out = ["fail", classify_exc(e)]
